@@ -693,7 +693,9 @@ func PreprocessDeclarationsPrelude(baseURL string, declarations []pa.Compound, p
 		}
 	}
 
-	out = append(out, KeyedDeclarations{selectors, ownDecls})
+	// the nested rules come after the declarations of the rule itself in the
+	// order of appearance: at equal specificity they win
+	out = append([]KeyedDeclarations{{selectors, ownDecls}}, out...)
 
 	return out, nil
 }
